@@ -60,6 +60,37 @@ def byte_tables(ctx, rule, files):
     return n
 
 
+import re as _re
+_SPEC = _re.compile(r"%(?:%|([#0\- +]*)(\d+)?([dsr]))")
+
+
+def render_format(text, arg):
+    """`text % arg` with a constant text: literal pieces (constant integer arguments formatted in, %% collapsed) and the argument terms that
+    are not constants, in order; None when the text or the arguments are of another kind."""
+    args = list(arg[1]) if arg[0] == "tuple" else [arg]
+    out, pos, k = [""], 0, 0
+    for m in _SPEC.finditer(text):
+        out[-1] += text[pos:m.start()]
+        pos = m.end()
+        if m.group(0) == "%%":
+            out[-1] += "%"
+            continue
+        if k >= len(args):
+            return None
+        a = args[k]
+        k += 1
+        if N.is_int(a) and m.group(3) in "ds":
+            out[-1] += ("%" + (m.group(1) or "") + (m.group(2) or "") + "d") % a[2]
+        elif m.group(1) or m.group(2):
+            return None
+        else:
+            out.extend([a, ""])
+    out[-1] += text[pos:]
+    if k != len(args) or "%" in _SPEC.sub("", text):
+        return None
+    return [x for x in out if x != ""]
+
+
 def run(ctx):
     M = ctx.model
     # ---------------------------------------------------------------- R1
@@ -246,10 +277,19 @@ def run(ctx):
                 t = e["args"][0][1]
                 if t[0] == "fmt" and N.is_const(t[1]):
                     widths.add((t[1][2], t[2]))
-    want_w = ("tuple", (N.mk_add(N.mk_mul(N.const(3), ls), N.const(1), -1),))
+    # the line format after the outer formatting, with constant arguments filled in and the symbolic width left as a term:
+    # "%0<4|8>X   %-<3*linesize-1>s   %s" however the two-stage formatting is spelled
+    want_width = N.mk_add(N.mk_mul(N.const(3), ls), N.const(1), -1)
     good = len(widths) >= 2
+    rendered = set()
     for text, arg in widths:
-        good = good and "%%-%ds" in text and text.count("   ") == 2 and arg == want_w
+        pieces = render_format(text, arg)
+        if pieces is None:
+            good = False
+            continue
+        rendered.add(tuple(pieces))
+        good = good and len(pieces) == 3 and isinstance(pieces[0], str) and _re.fullmatch(r"%0[48]X   %-", pieces[0]) is not None and pieces[1] == want_width and pieces[2] == "s   %s"
+    good = good and {pc[0] for pc in rendered if pc and isinstance(pc[0], str)} == {"%04X   %-", "%08X   %-"}
     ctx.ob("C20.R4", fh, good, "every size branch of hexdump left-justifies the hex field to 3*linesize-1 columns between three-space separators (%s)" % sorted(w[0] for w in widths), key="hex field width")
     # prologue / epilogue lines
     rets = [p for p in ph if p.returns]
@@ -261,12 +301,14 @@ def run(ctx):
     loop_first = next((n.lineno for n in ast.walk(fh.node) if isinstance(n, ast.For)), 0)
     pro = len([n for n in top if n.lineno < loop_first])
     epi = len([n for n in top if n.lineno > loop_first])
+    # the lines the reader goes over: a constant slice of the dump split into lines (loop or comprehension alike)
     sl = None
-    for n in ast.walk(fu.node):
-        if isinstance(n, ast.For) and isinstance(n.iter, ast.Subscript) and isinstance(n.iter.slice, ast.Slice):
-            lo = n.iter.slice.lower
-            hi = n.iter.slice.upper
-            sl = (ast.literal_eval(lo) if lo is not None else 0, -ast.literal_eval(hi.operand) if isinstance(hi, ast.UnaryOp) else (ast.literal_eval(hi) if hi is not None else 0))
+    uterms = [v for p in pu for e in p.events for v in e.a.values() if isinstance(v, tuple)] + [p.retval for p in pu if p.returns and p.retval is not None]
+    for v in uterms:
+        for x in N.walk(v):
+            if x[0] == "sub" and x[2][0] == "slice" and x[1][0] == "call" and x[1][1][0] == "attr" and x[1][1][1] == ("param", "data") and x[1][1][2] in ("split", "splitlines") \
+                    and all(y == N.NONE or N.is_int(y) for y in x[2][1:3]) and x[2][3] == N.NONE:
+                sl = (0 if x[2][1] == N.NONE else x[2][1][2], 0 if x[2][2] == N.NONE else x[2][2][2])
     ctx.ob("C20.R4", fu, sl is not None and sl == (pro, -epi), "hexdump writes %s prologue and %s epilogue line(s); hexundump drops %s" % (pro, epi, sl), key="prologue/epilogue")
     cut = [x for p in pu for e in p.events for v in e.a.values() if isinstance(v, tuple) for x in N.walk(v) if x[0] == "slice"]
     cuts = {x[2] for x in cut if x[1] == N.NONE and x[2] != N.NONE and N.contains(x[2], ls)}
